@@ -298,3 +298,223 @@ def check_cycles_rules(ctx, rep, rule):
         rep.check(bool(uses), rule, "%s iterates in topological order" % f.qualname, f.qualname,
                   "%s does not loop over self.topological_order()" % f.qualname,
                   "jobs are numbered / listed / drawn in an order that is not a linear extension")
+
+
+# ==================================================================== C16
+class SanitizeModel(GraphModel):
+    """GraphModel + fold table of the member loop of sanitize (appendix B of DESIGN.md)"""
+
+    def __init__(self, *a, **k):
+        GraphModel.__init__(self, *a, **k)
+        self.tables = []
+
+    def on_branch(self, ip, node, term, val, st, fr):
+        if term[0] == 'call' and term[1] == 'isinstance' and val and not ip.in_summary:
+            st = st.set(nested_iter=True)
+        return st
+
+    def on_call(self, ip, node, fterm, args, kws, st, fr):
+        if fterm[0] == 'attr' and fterm[2] == 'sanitize' and fterm[1][0] == 'elem':
+            self.ev(ip, 'CALL', node, st, fr, recv=fterm[1], meth='sanitize', args=args, kws=kws, depth=fr.depth)
+            return [(st.set(rec_called=True), T.mk(('mcall', fterm[1], 'sanitize', (), ())))]
+        return GraphModel.on_call(self, ip, node, fterm, args, kws, st, fr)
+
+    def on_iter(self, ip, ctx, st, fr):
+        if ctx.kind == 'for' and ctx.iter == MEMBERS and not ip.in_summary and fr.depth == 0:
+            if st.a('nested_iter') and not st.a('rec_called'):
+                self.ev(ip, 'REC_SKIPPED', ctx.node, st, fr)
+            st = st.set(nested_iter=False, rec_called=False)
+        return GraphModel.on_iter(self, ip, ctx, st, fr)
+
+    def on_loop_exit(self, ip, ctx, st, fr):
+        if ctx.kind == 'for' and ctx.iter == MEMBERS and not ip.in_summary and fr.depth == 0:
+            if st.a('nested_iter') and not st.a('rec_called'):
+                self.ev(ip, 'REC_SKIPPED', ctx.node, st, fr)
+            st = st.set(nested_iter=False, rec_called=False)
+        return GraphModel.on_loop_exit(self, ip, ctx, st, fr)
+
+    def on_loop(self, ip, node, it, st, fr):
+        if it != MEMBERS or fr.depth != 0 or ip.in_summary:
+            return None
+        from ..flow import LoopCtx, Out, truth
+        assigned = {n.id for n in ast.walk(node) if isinstance(n, ast.Name) and isinstance(n.ctx, ast.Store)}
+        flags = [n for n in assigned if T.is_const(st.var(fr.fid, n, ('unk',))) and
+                 isinstance(st.var(fr.fid, n)[1], bool)]
+        key = ip.loop_key(node, fr)
+        elem = T.mk(('elem', it, key))
+        for f in flags:
+            rows = []
+            for fin in (False, True):
+                b = st.with_var(fr.fid, f, ('const', fin))
+                sc = Out()
+                bs = ip.assign(node.target, elem, b, fr, sc, node)
+                ctx = LoopCtx('for', node, it, elem, key, node.target)
+                ip.loopctx.append(ctx)
+                ip.in_summary += 1
+                try:
+                    r = ip.exec_block(node.body, bs, fr)
+                finally:
+                    ip.in_summary -= 1
+                    ip.loopctx.pop()
+                for x in r.nxt + r.cont:
+                    new = {k: v for k, v in x.facts.items() if st.facts.get(k) != v}
+                    ft = x.var(fr.fid, f)
+                    rows.append((fin, new, ft, x))
+                if r.brk or r.ret or r.exc:
+                    rows.append((fin, None, None, None))
+            self.tables.append((f, st.var(fr.fid, f)[1], rows, node))
+        return None
+
+
+def _eval_bool(e, env):
+    if isinstance(e, ast.Constant):
+        return bool(e.value)
+    if isinstance(e, ast.Name) and e.id in env:
+        return env[e.id]
+    if isinstance(e, ast.UnaryOp) and isinstance(e.op, ast.Not):
+        return not _eval_bool(e.operand, env)
+    if isinstance(e, ast.BoolOp):
+        vals = [_eval_bool(v, env) for v in e.values]
+        return all(vals) if isinstance(e.op, ast.And) else any(vals)
+    raise ValueError("not a boolean expression of the flag")
+
+
+def sanitize_rules(ctx, rep, r1, r2, r3, r4):
+    r = ctx.roles
+    f = ctx.prog.supplier(r.sched, 'sanitize')
+    if f is None:
+        rep.error(r1, "sanitize not found")
+        return
+    an, ip, out = ctx.explore(f, model=SanitizeModel)
+    fn = f.qualname
+    REQ = 'required'
+    # R16.1 / R16.2 writers of `required`
+    writes = [e for e in an.events('STORE') if e.data['attr'] == REQ] + \
+             [e for e in an.events('MUT') if e.data['attr'] == REQ]
+    rep.need(r1, len(writes), 1, "writers of `required` in sanitize")
+    good_writes = 0
+    for e in writes:
+        o = e.data['obj']
+        site = "%s requirements intersected with the member set" % e.where
+        okobj = o[0] == 'elem' and o[1] == MEMBERS
+        cur = T.mk(('attr', o, REQ))
+        okval = False
+        why = ""
+        if e.kind == 'STORE':
+            v = e.data['val']
+            why = T.show(v, 4)
+            if v[0] == 'binop' and v[1] == 'BitAnd' and {v[2], v[3]} == {cur, MEMBERS}:
+                okval = True
+            if v[0] == 'mcall' and v[1] == cur and v[2] == 'intersection' and v[3] == (MEMBERS,):
+                okval = True
+            if v[0] == 'comp' and len(v[3]) == 1 and strip_coll(v[3][0][1]) == cur:
+                el = T.mk(('elem', v[3][0][1], v[3][0][0]))
+                if v[2] == el and list(v[3][0][2]) == [T.mk(('cmp', 'in', el, MEMBERS))]:
+                    okval = True
+        else:
+            why = ".%s(%s)" % (e.data['how'], ", ".join(T.show(a, 3) for a in e.data['args']))
+            okval = e.data['how'] == 'intersection_update' and e.data['args'] == (MEMBERS,)
+        lp = [c for c in e.loops if c.elem == o]
+        conds = [k for k, v in e.st.facts.items() if T.contains(k, o) and k != MEMBERS]
+        uncond = bool(lp) and not lp[0].conds and not conds
+        rep.check(okobj and okval and uncond, r1 if (okobj and okval) else r2, site, fn,
+                  "`%s` (value %s%s)" % (src(stmt_of(e.node)), why,
+                                         "" if uncond else ", under conditions %s" % [T.show(c, 3) for c in conds]),
+                  "after sanitize() a member still requires a job that is not a member of the same scheduler, "
+                  "or an edge between two members was dropped", trace(e.st))
+        if okobj and okval and uncond:
+            good_writes += 1
+    rep.check(good_writes > 0, r1, "%s closes every member's requirements" % fn, fn,
+              "no statement replaces job.required by job.required & self.jobs for every member",
+              "sanitize() does not close the requirement relation")
+    # R16.3 recursion unconditional
+    calls = [e for e in an.events('CALL') if e.data['meth'] == 'sanitize']
+    rep.check(bool(calls), r3, "%s recurses into nested schedulers" % fn, fn,
+              "no call of <member>.sanitize()", "nested schedulers are not sanitized")
+    for e in calls:
+        recv = e.data['recv']
+        conds = [(k, v) for k, v in e.st.facts.items() if T.contains(k, recv) and k != MEMBERS
+                 and not (k[0] == 'call' and k[1] == 'isinstance' and v)
+                 and not (k[0] == 'cmp' and k[1] in ('!=', '=='))]
+        rep.check(not conds, r3, "%s recursion not filtered" % e.where, fn,
+                  "recursive sanitize under %s" % [(T.show(k, 3), v) for k, v in conds],
+                  "some nested schedulers are not sanitized", trace(e.st))
+        isi = [k for k, v in e.st.facts.items() if k[0] == 'call' and k[1] == 'isinstance' and v
+               and k[2][0] == recv]
+        for k in isi:
+            c = k[2][1]
+            okc = c[0] == 'class' and c[1] in ctx.prog.classes and \
+                ctx.prog.classes[c[1]] in r.sched.mro
+            rep.check(okc, r3, "%s recursion covers every nested scheduler" % e.where, fn,
+                      "recursion restricted to instances of %s" % T.show(c, 2),
+                      "nested schedulers of another class are not sanitized", trace(e.st))
+    for e in an.events('REC_SKIPPED'):
+        rep.fail(r3, "%s recursion skipped on some path" % e.where, fn,
+                 "an iteration over a nested scheduler can finish without calling its sanitize() "
+                 "(short-circuit or condition on the flag)",
+                 "a nested scheduler is left unsanitized once a change was seen earlier in the loop",
+                 trace(e.st))
+    # R16.4 truth table of the returned value
+    if not an.tables:
+        rep.error(r4, "cannot find the boolean accumulator of the member loop of sanitize")
+        return
+    rets = an.events('RET')
+    for (flag, init, rows, node) in an.tables:
+        # R(flag): the returned value as a function of the final flag
+        R = {}
+        for n in walk_local(f.node):
+            if isinstance(n, ast.Return) and n.value is not None and \
+                    any(isinstance(m, ast.Name) and m.id == flag for m in ast.walk(n.value)):
+                for fv in (True, False):
+                    try:
+                        R[fv] = _eval_bool(n.value, {flag: fv})
+                    except ValueError:
+                        pass
+        if set(R) != {True, False} or R[True] == R[False]:
+            continue            # not the accumulator that decides the result
+        good = lambda fv: R[fv]
+        rep.check(good(init), r4, "%s initial state means `nothing removed`" % fn, fn,
+                  "flag `%s` starts at %s, for which sanitize() returns %s" % (flag, init, good(init)),
+                  "sanitize() of a sound scheduler returns False")
+        nrows = 0
+        for fin, new, ft, x in rows:
+            if new is None:
+                rep.error(r4, "member loop of sanitize leaves early")
+                continue
+            removed = nested = ok = None
+            for k, v in new.items():
+                if k[0] == 'call' and k[1] == 'isinstance':
+                    nested = v
+                elif k[0] == 'mcall' and k[2] == 'sanitize':
+                    ok = v
+                elif k[0] == 'cmp' and k[1] in ('!=', '==', '<', '>'):
+                    removed = v if k[1] != '==' else (not v)
+                elif k[0] not in ('forall', 'exists') and T.mentions(k, lambda s: T.is_attr(s, 'required')):
+                    removed = v
+            subs = [s for s in T.subterms(ft) if s[0] == 'mcall' and s[2] == 'sanitize'] if ft is not None else []
+            for okv in ([ok] if ok is not None else [True, False]):
+                y = x
+                if subs and ok is None:
+                    y = x.assume(subs[0], okv)
+                    if y is None:
+                        continue
+                from ..flow import truth
+                fo = truth(ft, y)
+                if fo is None:
+                    rep.error(r4, "value of `%s` after one member not decidable: %s" % (flag, T.show(ft, 4)))
+                    continue
+                for rm in ([removed] if removed is not None else [True, False]):
+                    for ns in ([nested] if nested is not None else [False, True]):
+                        want = good(fin) and (not rm) and ((not ns) or okv is True)
+                        nrows += 1
+                        rep.check(good(fo) == want, r4,
+                                  "%s result after a member (before:%s removed:%s nested:%s nested-ok:%s)"
+                                  % (fn, "ok" if good(fin) else "changed", rm, ns, okv), fn,
+                                  "after a member with removed=%s nested=%s nested-result=%s and previous state %s, "
+                                  "sanitize() would return %s" % (rm, ns, okv, "fine" if good(fin) else "changed",
+                                                                  good(fo)),
+                                  "sanitize() must return True iff nothing had to be removed anywhere in the tree "
+                                  "(here it must be %s)" % want)
+        rep.need(r4, nrows, 6, "rows of the fold table")
+        return
+    rep.error(r4, "no boolean accumulator of the member loop determines the result of sanitize")
